@@ -131,6 +131,18 @@ func c04Days(w *W, y int) {
 			w.Eval(1)
 		}
 	}
+	// nothing in between: each of the ten dropped days is refused by every civil constructor, 4 and 15 October are not
+	if y == 1582 {
+		for d := 4; d <= 15; d++ {
+			for ci, mk := range []func(){func() { calendar.NewSolar(1582, 10, d, 12, 0, 0) }, func() { calendar.NewSolarFromYmd(1582, 10, d) }} {
+				pv := Call(mk)
+				if gap := d > 4 && d < 15; gap != (pv != nil) {
+					w.Violatef("gap", fmt.Sprintf("1582-10-%02d/ctor%d", d, ci), "constructor %d (NewSolar / NewSolarFromYmd) for 1582-10-%02d: panicked=%v, the day exists=%v", ci, d, pv != nil, !gap)
+				}
+				w.Eval(1)
+			}
+		}
+	}
 	var prev *calendar.Solar
 	if y > minYear {
 		prev = calendar.NewSolarFromYmd(y-1, 12, 31)
